@@ -10,6 +10,10 @@
 //	                                            until a class is written next to them)
 //	rigoextract -repo /repo -why 'stake:(*StakeCtrler).Commit'
 //	                                            call path from each entry-point set to matching functions
+//	rigoextract -repo /repo -json out.json -funcs /verif/lean/Rigo/Generated/Funcs.lean [-funcscheck <file>]
+//	                                            additionally translates the whitelisted pure functions of
+//	                                            expect/funcs.json to Lean (translate*.go, docs/TRANSLATOR.md) and
+//	                                            adds the check groups `funcs` and `funcs_<owner>`
 //
 // Groups: rlp_fields, tx_dispatch, merge_fields, commit_order (+durable_outside_commit),
 // nondeterminism, panic_sites, constants. Sites are keyed by (package, function, kind, detail) and
@@ -82,6 +86,8 @@ func main() {
 	repo := flag.String("repo", "/repo", "working tree of rigo-go")
 	jsonOut := flag.String("json", "", "write checks+facts as JSON to this file")
 	leanOut := flag.String("lean", "", "write Lean definitions to this file (only when changed)")
+	funcsCheckOut := flag.String("funcscheck", "", "with -funcs: write a Lean file that #checks the equality theorem of every whitelisted function (only when changed)")
+	funcsOut := flag.String("funcs", "", "translate the whitelisted functions of expect/funcs.json to this Lean file (only when changed); adds the `funcs` check group")
 	expectDir := flag.String("expect", "", "directory of expectation files (default <verif>/expect)")
 	update := flag.Bool("update-expect", false, "regenerate the expectation files from the current tree (keeps notes/classes)")
 	verbose := flag.Bool("v", false, "print the checks to stderr")
@@ -223,6 +229,21 @@ func main() {
 	c.Summary = fmt.Sprintf("%d constants; %s", len(consts), verdict(c.Problems))
 	checks["constants"] = c
 
+	// 8. funcs (only with -funcs): Go -> Lean translation of the whitelisted pure functions
+	funcsText, funcsCheckText := "", ""
+	if *funcsOut != "" {
+		text, ff, fp, byOwner, checkText := pr.translateFuncsFull(*expectDir)
+		funcsText = text
+		funcsCheckText = checkText
+		facts["funcs"] = ff
+		checks["funcs"] = Check{OK: len(fp) == 0, Problems: nonNil(fp),
+			Summary: fmt.Sprintf("%v of %v whitelisted functions translated to Lean; %s", ff["translated"], ff["whitelisted"], verdict(fp))}
+		for owner, ps := range byOwner { // one group per owning property: funcs_C11, ...
+			checks["funcs_"+owner] = Check{OK: len(ps) == 0, Problems: nonNil(ps),
+				Summary: fmt.Sprintf("whitelisted functions owned by %s; %s", owner, verdict(ps))}
+		}
+	}
+
 	for g, c := range checks {
 		c.Problems = nonNil(c.Problems)
 		checks[g] = c
@@ -240,6 +261,18 @@ func main() {
 		if err := writeIfChanged(*leanOut, []byte(leanFile(pr, facts, flat, nondet, panics))); err != nil {
 			fmt.Fprintln(os.Stderr, "rigoextract:", err)
 			os.Exit(1)
+		}
+	}
+	if *funcsOut != "" {
+		if err := writeIfChanged(*funcsOut, []byte(funcsText)); err != nil {
+			fmt.Fprintln(os.Stderr, "rigoextract:", err)
+			os.Exit(1)
+		}
+		if *funcsCheckOut != "" {
+			if err := writeIfChanged(*funcsCheckOut, []byte(funcsCheckText)); err != nil {
+				fmt.Fprintln(os.Stderr, "rigoextract:", err)
+				os.Exit(1)
+			}
 		}
 	}
 	if *verbose || *jsonOut == "" {
